@@ -77,8 +77,12 @@ var faultKinds = []simfs.Kind{simfs.KWriteAt, simfs.KWriteAt, simfs.KSyncFile, s
 	simfs.KCommitState, simfs.KCommitState, simfs.KSetStable, simfs.KListDir, simfs.KOpenReader, simfs.KOpenWriter, simfs.KLoad, simfs.KReadAt}
 
 func genCase(t *rapid.T) Case {
-	if rapid.IntRange(0, 99).Draw(t, "template") < 35 {
+	tpl := rapid.IntRange(0, 99).Draw(t, "template")
+	if tpl < 35 {
 		return genTruncCase(t)
+	}
+	if tpl < 38 {
+		return genHugeCase(t)
 	}
 	c := Case{SegSize: rapid.SampledFrom([]int{1, 64, 128, 256, 512}).Draw(t, "seg")}
 	n := rapid.IntRange(3, 14).Draw(t, "nops")
@@ -128,6 +132,40 @@ func genCase(t *rapid.T) Case {
 // roomy tail segment, a DeleteRange (mostly a tail truncation ending inside the
 // tail, which force-seals it), the same call retried, more appends, reopens -
 // with the fault placed on one of the I/O calls of that DeleteRange itself.
+// genHugeCase: one append of more than 1 MiB (far beyond the 64 KiB commit buffer), often the first
+// commit into a fresh segment file, with the fault aimed at one of its own I/O calls; then the retry,
+// more appends and the reopens.
+func genHugeCase(t *rapid.T) Case {
+	c := Case{SegSize: rapid.SampledFrom([]int{256, 4096, 1 << 20}).Draw(t, "seg")}
+	small := func() FOp {
+		op := FOp{K: "append", Start: 1}
+		for j, m := 0, rapid.IntRange(1, 3).Draw(t, "n"); j < m; j++ {
+			op.Entries = append(op.Entries, kit.EntrySpec{DataLen: rapid.SampledFrom([]int{0, 30, 200}).Draw(t, "dl"), Seed: uint8(rapid.IntRange(0, 255).Draw(t, "seed"))})
+		}
+		return op
+	}
+	for i, n := 0, rapid.IntRange(0, 2).Draw(t, "pre"); i < n; i++ {
+		c.Ops = append(c.Ops, small())
+	}
+	target := len(c.Ops)
+	huge := FOp{K: "append", Start: 1}
+	for j, m := 0, rapid.IntRange(1, 2).Draw(t, "nhuge"); j < m; j++ {
+		huge.Entries = append(huge.Entries, kit.EntrySpec{DataLen: (1 << 20) + rapid.SampledFrom([]int{1, 4096, 70000, 300000}).Draw(t, "extra"), Seed: uint8(rapid.IntRange(0, 255).Draw(t, "seed"))})
+	}
+	c.Ops = append(c.Ops, huge, FOp{K: "retry"})
+	for i, n := 0, rapid.IntRange(0, 3).Draw(t, "post"); i < n; i++ {
+		c.Ops = append(c.Ops, small())
+	}
+	f := Fault{Kind: string(rapid.SampledFrom([]simfs.Kind{simfs.KSyncFile, simfs.KSyncFile, simfs.KWriteAt, simfs.KSyncDir}).Draw(t, "fkind")),
+		Sel: rapid.IntRange(0, 3).Draw(t, "fsel"), Mode: "transient", Op: target + 1}
+	if f.Kind == string(simfs.KWriteAt) {
+		f.Partial = rapid.SampledFrom([]int{0, 8, 70000, 1 << 20}).Draw(t, "partial")
+		f.Err = rapid.SampledFrom(faultErrs).Draw(t, "ferr")
+	}
+	c.Faults = []Fault{f}
+	return c
+}
+
 func genTruncCase(t *rapid.T) Case {
 	c := Case{SegSize: rapid.SampledFrom([]int{256, 512, 4096}).Draw(t, "seg")}
 	app := func() FOp {
